@@ -79,14 +79,13 @@ def run(tier, seed):
                 if math.isfinite(m) and not common.vclose(g, sum(pg), 1e-9, 1e-12):
                     problems.append("gradient is not the sum over the parts")
                 # bounds = intersection of all parts' bounds (and the own ones)
-                los = [node.lb] + [bounds_of(c.obj)[0] for c in node.children]
-                his = [node.ub] + [bounds_of(c.obj)[1] for c in node.children]
-                los = [v for v in los if v is not None]
-                his = [v for v in his if v is not None]
-                elb = np.max(np.hstack(los), axis=1, keepdims=True) if los else None
-                eub = np.min(np.hstack(his), axis=1, keepdims=True) if his else None
+                # reference: the construction values of the whole expression (the bounds of a composite part live in its blocks, at any depth)
+                elb, eub = distgen.effective_bounds(node)
                 for name, got, want in (("lower", lb, elb), ("upper", ub, eub)):
-                    if (got is None) != (want is None) or (got is not None and not np.array_equal(got, want)):
+                    # "no bounds on this side" is None or a column of infinities alike
+                    fill = -np.inf if name == "lower" else np.inf
+                    got_, want_ = (np.full((node.d, 1), fill) if v is None else np.asarray(v, dtype=float) for v in (got, want))
+                    if got_.shape != want_.shape or not np.array_equal(got_, want_):
                         problems.append(f"{name} bounds are not the intersection of the parts' bounds")
             elif node.kind == "composite":
                 dims = [c.d for c in node.children]
@@ -142,8 +141,21 @@ def run(tier, seed):
             q = np.array([[rnd.uniform(-7, 7)] for _ in range(d)])
             p = np.array([[rnd.uniform(-2, 2)] for _ in range(d)])
             qq, pp = q.copy(), p.copy()
-            with quiet():
-                o.corrector(qq, pp)
+            try:
+                with quiet():
+                    o.corrector(qq, pp)
+            except Exception as e:
+                findings.append(Finding("C13", f"{node.kind}: corrector() raised {e!r}"[:300], {"kind": node.kind, "problem": "corrector raised"},
+                                        {"oracle": "corrector", "stimulus": dict(stim, q=q.ravel().tolist(), p=p.ravel().tolist()), "error": repr(e)}))
+                continue
+            # the documented mirroring at the bounds the expression was constructed with (own, inherited through BayesRule, per block at any depth)
+            eq, ep = q.copy(), p.copy()
+            distgen.expected_reflect(node, eq, ep)
+            if not (np.array_equal(eq, qq) and np.array_equal(ep, pp)):
+                findings.append(Finding("C13", f"{node.kind}: corrector() does not mirror at the bounds of the parts: coordinates {qq.ravel().tolist()} / momenta {pp.ravel().tolist()}, "
+                                        f"expected {eq.ravel().tolist()} / {ep.ravel().tolist()}"[:400], {"kind": node.kind, "problem": "corrector"},
+                                        {"oracle": "corrector", "stimulus": dict(stim, q=q.ravel().tolist(), p=p.ravel().tolist()),
+                                         "observed": {"q": qq.ravel().tolist(), "p": pp.ravel().tolist()}, "expected": {"q": eq.ravel().tolist(), "p": ep.ravel().tolist()}}))
             creqs.append(f"c05.correct {node.proto} {vhex(q)} {vhex(p)}")
             cmetas.append((dict(stim, q=q.ravel().tolist(), p=p.ravel().tolist()), qq, pp))
     for (stim, m, g, lb, ub), ans in zip(metas, lean_batch(reqs)):
